@@ -732,17 +732,56 @@ def shrink(ctx, exe, items, workers, rng):
     return best, fails(best)
 
 
+def known_probes(ctx, exe):
+    """Probes of the known findings: F51/F52 (property C11) are routed through ctx.violation with their
+    finding key (suppressed while listed as known; a probe that no longer misbehaves reports nothing);
+    F53/F54 belong to C01 and are only recorded as related evidence."""
+    related = {}
+    for line in corpus("c11_known.txt"):
+        c = json.loads(line)
+        w = c.get("workers", 1)
+        cases = [hist_case(w, c["lines"])] + ([one_case(w, c["one"])] if c.get("one") else [])
+        _, outs = ctx.run_bin(exe, cases)
+        sess = parse_session(outs[0]) or []
+        ocs = [d["outcome"] for d in sess]
+        one = sexpr.parse(outs[1]) if len(outs) > 1 else None
+        fid = c["finding"]
+        if fid == "F51":
+            broken = len(sess) < len(c["lines"]) or any(o[0] in ("env-error", "panic", "timeout") for o in ocs) or \
+                any("env-error" in json.dumps(d.get("vars", [])) for d in sess)
+            still = broken
+        else:
+            still = bool(ocs) and one is not None and ocs[-1] != one
+        related[fid] = dict(lines=c["lines"], repl=ocs[-1] if ocs else None, one_program=one, still_present=still)
+        if still and fid in ("F51", "F52"):
+            ctx.violation({"kind": "impl-violation", "what": "known-finding probe " + fid, "history": c["lines"],
+                           "repl_outcomes": ocs, "one_program": one}, finding_key=fid)
+    ctx.cov["known_related"] = related
+
+
 def run(ctx):
     proofs_ok = ctx.coq_props()
     exe = ctx.harness("qv_repl")
     if not exe:
         return
+    if getattr(ctx, "replay_path", None):
+        return replay(ctx, exe)
     rng = ctx.rng
     cov = ctx.cov
-    n_hist = ctx.n(220, 6000)
+    known_probes(ctx, exe)
+    n_hist = ctx.n(220, 2500)
     batch = []
     stats_total = {}
     lens = {}
+    for line in corpus("c11_histories.txt"):
+        c = json.loads(line)
+        items = [dict(what=it["kind"], **it) for it in c["items"]]
+        for it in items:
+            it.setdefault("expect", None)
+        splits, nfree, idx, oc, hc = run_real(ctx, exe, items, c.get("workers", 2), 32, rng)
+        batch.append(dict(items=items, workers=c.get("workers", 2), splits=splits, nfree=nfree, idx=idx, ocases=oc, hcases=hc,
+                          corpus=c.get("name")))
+    n_corpus = len(batch)
     for h in range(n_hist):
         g = Gen(rng, binaries=(h % 3 == 0))
         n_items = rng.choice([3, 4, 5, 6, 6, 7, 8, 10, 12])
@@ -825,6 +864,17 @@ def run(ctx):
     cov["rejected_by_compiler_after_compaction"] = compile_rejected
     problems += model_bad
     cov["evaluations"] = nruns + len(model_lines)
+    cov["corpus_histories"] = n_corpus
+    cov["shadowings"] = stats_total.get("shadow", 0)
+    cov["nil_valued_steps"] = stats_total.get("nil", 0)
+    cov["generator_exclusions"] = (
+        "kept out of generated histories (known findings, each probed separately in corpus/c11_known.txt): F13/F27 (no value or "
+        "binding whose static type is a union with nil feeds a later step); F52 (no `~`-consuming line after a line whose static "
+        "type contains nil; a fallible literal-pattern step stays alone on its line); F51 (a line break is forced after a "
+        "nil-valued step); F53/F54 (C01: a name is rebound only if it was never bound to a tuple, by a destructuring pattern, "
+        "from a bare variable/field reference or from the previous result, and never matched; `=b` does not bind the Ok of a "
+        "preceding match step). Type aliases are hoisted to the front of the one-program text (the parser rejects an alias "
+        "after an expression step, contrary to docs/spec.md); runtime errors are not generated.")
     cov["histories"] = len(batch)
     cov["splits_compared"] = splits_compared
     cov["repl_lines_run"] = lines_run
@@ -835,3 +885,34 @@ def run(ctx):
     cov["step_kinds"] = stats_total
     cov["disagreements_checked"] = problems
     cov["samples"] = [dict(history=[it["src"] for it in batch[-1]["items"]], splits=len(batch[-1]["splits"]))]
+    if not proofs_ok:
+        ctx.violation({"kind": "theorem-broken", "theorem": getattr(ctx, "broken_theorem", "?"),
+                       "searched": "%d evaluations on the real code (REPL lines vs one program over %d splittings, model vs real bookkeeping on %d sessions), %d disagreements"
+                                   % (cov["evaluations"], splits_compared, len(model_lines), problems)},
+                      no_input=(problems == 0))
+
+
+def replay(ctx, exe):
+    """Re-run the history of a replay file: every accepted line against the one program made of the
+    accepted lines so far (aliases hoisted), refcounts and quiescence after every line."""
+    r = json.load(open(ctx.replay_path))
+    lines = r.get("history") or r.get("lines") or []
+    w = r.get("workers", 2)
+    _, outs = ctx.run_bin(exe, [hist_case(w, lines)])
+    sess = parse_session(outs[0]) or []
+    items = []
+    for l, d in zip(lines, sess):
+        oc = d["outcome"][0]
+        items.append(dict(kind="reject" if oc in ("parse-error", "compile-error") else ("alias" if oc == "none" else "step"),
+                          src=l, what="replay", expect=None, nil=d["outcome"] == ["ok", NIL]))
+    items += [dict(kind="step", src=l, what="replay", expect=None) for l in lines[len(items):]]
+    splits = [set(range(1, len(items)))]
+    idx = [j for j, it in enumerate(items) if it["kind"] == "step"]
+    (res,), _ = evaluate_batch(ctx, exe, [dict(ocases=[one_case(w, one_program(items, j)) for j in idx],
+                                                hcases=[hist_case(w, lines)], idx=idx)])
+    try:
+        check_history(items, res[0], res[1], splits)
+        print("replay: no failure on the current tree")
+    except Problem as p:
+        ctx.violation({"kind": "impl-violation" if p.kind == "impl-violation" else "correspondence-broken", "what": p.what,
+                       "history": lines, "workers": w, "detail": p.detail}, no_input=p.kind != "impl-violation")
